@@ -41,6 +41,8 @@ def plan(tier, seed):
         n = 4 if tier == "quick" else 12
         for i in range(n):
             specs.append({"kind": "invoke", "legacy": legacy, "part": i, "of": n, "arity": 2 if tier == "quick" else 3})
+    specs.append({"kind": "firstuse", "legacy": True})
+    specs.append({"kind": "firstuse", "legacy": False})
     if tier == "thorough":
         specs.append({"kind": "strace"})
     return specs
@@ -109,18 +111,33 @@ class Secure:
         self.fresh()
 
     def fresh(self):
-        self.it, self.out = core.new_interpreter(secure=True, legacy=self.legacy)
+        # (armed while the interpreter is built as well: what a secure interpreter binds at construction - the OS
+        # constants, say - must not touch files or start processes either; host libraries cache such results per
+        # process, so a later program would not show it again)
+        mon = audit.MONITOR
+        was = mon.armed
+        mon.armed = True
+        mon.constructing = True
+        try:
+            self.it, self.out = core.new_interpreter(secure=True, legacy=self.legacy)
+        finally:
+            mon.armed = was
+            mon.constructing = False
         if self.moddir:
             mp = self.V.ValueList()
             mp.addItem(self.V.ValueString(self.moddir))
             self.it.base_environment.put("checkerlang_module_path", mp)
 
-    def run(self, src, env=None):
+    def run(self, src, env=None, own_scope=False):
+        """own_scope: the program runs in the interpreter's own scope (the host passes no environment)"""
         env = env if env is not None else self.Env()
         mon = audit.MONITOR
         mon.armed = True
         try:
-            o = observe(lambda: self.it.interpret(src, "c09", env), 1500000)
+            if own_scope:
+                o = observe(lambda: self.it.interpret(src, "c09"), 1500000)
+            else:
+                o = observe(lambda: self.it.interpret(src, "c09", env), 1500000)
         finally:
             mon.armed = False
         if o.kind == "hang":
@@ -361,11 +378,12 @@ def run_flag(ctx, legacy, canary, moddir, os_classes):
             src = form.replace("{ATTEMPT_DQ}", body.replace("'", "\\'") if False else body).replace("{ATTEMPT}", body)
             if "{ATTEMPT_DQ}" in form:
                 src = form.replace("{ATTEMPT_DQ}", body)
-            S.fresh()
-            o, env = S.run(src)
-            ctx.count("flag_programs")
-            ctx.case(src)
-            check_state(ctx, S, ("flag-" + fname, src), canary, before, os_classes)
+            for own in (False, True):
+                S.fresh()
+                o, env = S.run(src, own_scope=own)
+                ctx.count("flag_programs")
+                ctx.case((src, own))
+                check_state(ctx, S, ("flag-" + fname + ("-own-scope" if own else ""), src), canary, before, os_classes)
     ctx.sample({"flag_form": FLAG_FORMS[6][1], "attempt": attempts(canary)[1]})
 
 
@@ -532,6 +550,20 @@ def run_shard(spec, ctx):
         return
     if kind == "strace":
         run_strace(ctx, canary, moddir)
+        return
+    if kind == "firstuse":
+        # nothing else has run in this process yet: what host libraries do once per process (and cache) happens now,
+        # under the monitor - building the secure interpreter, then programs that merely look at what secure mode offers
+        S = Secure(spec["legacy"], moddir)
+        before = snapshot(canary)
+        progs = ["require OS; [OS->OS_NAME, OS->OS_VERSION, OS->OS_ARCH, OS->PS, OS->LS, OS->FS]", "bind_native('OS_ARCH'); bind_native('OS_NAME'); bind_native('OS_VERSION'); [OS_ARCH, OS_NAME, OS_VERSION]",
+                 "require IO; require Date; require Random; require Math; require Sys; [Date->date(), Random->random(5), Math->PI]", "[date(), timestamp(), random(3)]",
+                 "require OS; ls(OS)", "require Sys; ls(Sys)", "[E, PI, MAXINT, MININT, MAXDECIMAL, MINDECIMAL]", "info(print); string(stdout); string(stdin)"]
+        for src in progs:
+            S.run("do %s catch all NULL end" % src)
+            ctx.count("first_use_programs")
+            ctx.case(("firstuse", spec["legacy"], src), nontrivial=True)
+        check_state(ctx, S, ("first-use", "building a secure interpreter and looking at its constants"), canary, before, set())
         return
     os_classes = derive_os_classes(ctx, canary)
     ctx.extras["derived_os_classes"] = sorted(os_classes)
